@@ -12,10 +12,7 @@ Local Open Scope R_scope.
 (* the enclosed cells: each a cell of the grid, none twice, and a prefix of the stable descending order *)
 Theorem C02_region_cells : forall a lim sel lastv warn, nonnegR a -> Rcbu a lim = CbuOk sel lastv warn ->
   NoDup sel /\ (forall k, In k sel -> in_range a k) /\ exists n, sel = map snd (firstn n (argsort_desc R Rleb a)).
-Proof.
-  intros a lim sel lastv warn Hn Hok. destruct (sel_cells a lim Hn sel lastv warn Hok) as [A B].
-  exact (conj A (conj B (sel_is_prefix a lim Hn sel lastv warn Hok))).
-Qed.
+Proof. exact region_cells_R. Qed.
 
 (* total cell probability of the enclosed region is at most 1 - alpha *)
 Theorem C02_content_at_most_limit : forall a lim sel lastv warn, nonnegR a -> Rcbu a lim = CbuOk sel lastv warn ->
@@ -44,32 +41,21 @@ Theorem C02_fm_is_least_dense_enclosed : forall f deltas lim sel lastv warn,
   exists k, In k sel /\ last sel 0%Z = k /\
             fm_of R Rdiv lastv deltas = nth (Z.to_nat k) f 0 /\
             forall c, In c sel -> nth (Z.to_nat k) f 0 <= nth (Z.to_nat c) f 0.
-Proof.
-  intros f deltas lim sel lastv warn Hd Hn Hok.
-  destruct (last_summed_is_min _ lim Hn sel lastv warn Hok) as [[k [Hk [Hl Ev]]] Hmin].
-  exists k. split; [exact Hk|]. split; [exact Hl|]. split.
-  - apply (fm_is_density f deltas (Z.to_nat k) lastv Hd). symmetry. exact Ev.
-  - intros c Hc. apply (density_order f deltas (Z.to_nat k) (Z.to_nat c) Hd). specialize (Hmin c Hc). rewrite Ev in Hmin. exact Hmin.
-Qed.
+Proof. exact fm_is_least_dense_enclosed. Qed.
 
 (* the enclosed region is the super-level set {p >= p_m} -- exactly, unless an excluded cell ties with the
    threshold; a tying excluded cell has exactly the threshold probability *)
 Theorem C02_region_is_superlevel_set : forall a lim sel lastv warn, nonnegR a -> Rcbu a lim = CbuOk sel lastv warn ->
   (forall k, in_range a k -> (In k sel -> lastv <= cellp a k) /\ (~ In k sel -> lastv <= cellp a k -> cellp a k = lastv)) /\
   ((forall e, in_range a e -> ~ In e sel -> cellp a e <> lastv) -> forall k, in_range a k -> (In k sel <-> lastv <= cellp a k)).
-Proof.
-  intros a lim sel lastv warn Hn Hok.
-  exact (conj (region_is_superlevel_set a lim Hn sel lastv warn Hok) (region_is_superlevel_set_no_ties a lim Hn sel lastv warn Hok)).
-Qed.
+Proof. exact superlevel_set_R. Qed.
 
 (* summed_fields has the shape of the input; the entry at a multi-index is set iff its row-major position was selected *)
 Theorem C02_mask_positions : forall sh sel idx, in_shape sh idx ->
   length (mask_of (prod sh) sel) = prod sh /\
   (nth (ravel sh idx) (mask_of (prod sh) sel) false = true <-> In (Z.of_nat (ravel sh idx)) sel) /\
   unravel sh (ravel sh idx) = idx.
-Proof.
-  intros sh sel idx H. split; [apply mask_of_length|]. split; [apply mask_of_nth, ravel_lt, H|apply unravel_ravel, H].
-Qed.
+Proof. exact mask_positions. Qed.
 
 (* if the grid cannot capture 1 - alpha: flag set (the RuntimeWarning is raised again), whole grid returned, prob_m = 0;
    otherwise the mask of the selection and its last summed value *)
@@ -124,8 +110,10 @@ End CellProbabilitiesGeneric.
 Theorem C02_float_entry_points :
   f_cbu = cumsum_biggest_until float 0%float PrimFloat.add PrimFloat.leb PrimFloat.ltb fisnan /\
   f_hdr_select = hdr_select float 0%float PrimFloat.add PrimFloat.leb PrimFloat.ltb fisnan /\
-  f_joint = cell_averaged_joint_pdf float 0%float 1%float 0.5%float PrimFloat.add PrimFloat.sub PrimFloat.mul PrimFloat.div.
-Proof. repeat split; reflexivity. Qed.
+  f_joint = cell_averaged_joint_pdf float 0%float 1%float 0.5%float PrimFloat.add PrimFloat.sub PrimFloat.mul PrimFloat.div /\
+  f_region = hdc_region float 0%float 1%float 0.5%float PrimFloat.add PrimFloat.sub PrimFloat.mul PrimFloat.div
+                        PrimFloat.leb PrimFloat.ltb fisnan.
+Proof. exact float_entry_points. Qed.
 
 (* non-vacuity: three cells, limit 4/5: cells 1 and 0 are enclosed, cell 2 is excluded, no warning *)
 Example C02_nonvacuous :
